@@ -481,7 +481,7 @@ def expr_of_w(v):
     if k in ('NOT', 'LEN'):
         return [k.lower(), expr_of_w(v[1])]
     if k == 'CALL':
-        return ['call', v[1], [expr_of_w(a) for a in v[2]]]
+        return ['call', expr_of_w(v[1])[1], [expr_of_w(a) for a in v[2]]]
     raise ValueError(v)
 
 
